@@ -49,6 +49,23 @@ class NetworkInterface;
  */
 typedef std::vector<uint8_t> byte_array;
 
+#ifdef TINS_VERIF_HOOKS
+class PDU;
+/**
+ * Verification hooks (off unless TINS_VERIF_HOOKS is defined). Null by default.
+ */
+namespace Verif {
+    enum { SER_PRE = 0, SER_POST = 1, SER_UNDERFLOW = 2 };
+    enum { LIFE_CTOR = 0, LIFE_COPY = 1, LIFE_MOVE = 2, LIFE_DTOR = 3 };
+    typedef void (*serialize_hook_type)(int event, const PDU* pdu, uint8_t* buffer,
+                                        uint32_t total_sz, uint32_t header_size,
+                                        uint32_t trailer_size);
+    typedef void (*lifetime_hook_type)(const PDU* pdu, int event);
+    TINS_API extern serialize_hook_type serialize_hook;
+    TINS_API extern lifetime_hook_type lifetime_hook;
+}
+#endif // TINS_VERIF_HOOKS
+
 /**
  * \class PDU
  * \brief Base class for protocol data units.
@@ -236,6 +253,11 @@ public:
          */
         PDU(PDU &&rhs) TINS_NOEXCEPT
         : inner_pdu_(0), parent_pdu_(0) {
+            #ifdef TINS_VERIF_HOOKS
+            if (Verif::lifetime_hook) {
+                Verif::lifetime_hook(this, Verif::LIFE_MOVE);
+            }
+            #endif
             std::swap(inner_pdu_, rhs.inner_pdu_);
             if (inner_pdu_) {
                 inner_pdu_->parent_pdu(this);
